@@ -111,6 +111,10 @@ package core
 //@      (len(state.Include) == 0 || anyGroup(target.Labels, target.Test != nil, state.Include)) && \
 //@      !anyGroup(target.Labels, target.Test != nil, state.Exclude))
 
+// Used by the `//dir/...` expansion (C22): whether a base name is a configured BUILD file name.
+//@ assume func (Configuration).IsABuildFile
+//@   pure
+
 // ---------------------------------------------------------------------------------------------
 // Cycle detection (C06): every reported cycle is genuine, for all graphs and all visiting orders.
 //
